@@ -473,7 +473,15 @@ impl Prop for C16 {
                 let mut ps = ParSeq::new(root, tp.clone());
                 let mut world = World::empty();
                 ctx.set_phase(PHASE_SETUP);
-                let r = catch_unwind(AssertUnwindSafe(|| ps.setup(&mut world)));
+                // ParSeq has an inherent API and a RunNow implementation: both are used
+                let via_run_now = case.jitter.first().map(|j| j % 2 == 1).unwrap_or(false);
+                let r = catch_unwind(AssertUnwindSafe(|| {
+                    if via_run_now {
+                        shred::RunNow::setup(&mut ps, &mut world)
+                    } else {
+                        ps.setup(&mut world)
+                    }
+                }));
                 ctx.set_phase(PHASE_BUILD);
                 if let Err(p) = r {
                     return Err(Fail::new(format!("setup panicked: {}", panic_msg(&p))));
@@ -500,6 +508,8 @@ impl Prop for C16 {
                     let r = catch_unwind(AssertUnwindSafe(|| {
                         if case.inside_pool {
                             tp.install(|| ps.dispatch(&world))
+                        } else if via_run_now {
+                            shred::RunNow::run_now(&mut ps, &world)
                         } else {
                             ps.dispatch(&world)
                         }
